@@ -265,7 +265,147 @@ def gen_ids():
     return "\n".join(out) + "\n"
 
 
-UNITS = {"GenIds.v": gen_ids}
+# --------------------------------------------------------------------------
+# unit "getters": exception discipline of the typed AVP value getters (T2)
+# --------------------------------------------------------------------------
+_TYCLS = {"Avp": "TUntyped", "AvpOctetString": "TOctet", "AvpUtf8String": "TUtf8",
+          "AvpInteger32": "TInt32", "AvpInteger64": "TInt64", "AvpUnsigned32": "TUns32",
+          "AvpUnsigned64": "TUns64", "AvpFloat32": "TFloat32", "AvpFloat64": "TFloat64",
+          "AvpTime": "TTime", "AvpAddress": "TAddress", "AvpGrouped": "TGrouped"}
+_EXN = {"struct.error": "EStructError", "ValueError": "EValueError", "UnicodeDecodeError": "EUnicodeDecodeError",
+        "OSError": "EOSError", "OverflowError": "EOverflowError", "TypeError": "ETypeError",
+        "AttributeError": "EAttributeError", "ConversionError": "EConversionError",
+        "AvpDecodeError": "EAvpDecodeError", "Exception": "EException", "socket.error": "EOSError"}
+
+
+def _dotted(node):
+    if isinstance(node, ast.Name):
+        return node.id
+    if isinstance(node, ast.Attribute):
+        b = _dotted(node.value)
+        return None if b is None else b + "." + node.attr
+    return None
+
+
+def _classify_call(node, path):
+    """primitive performed by a call inside a getter; None = harmless"""
+    f = node.func
+    name = _dotted(f)
+    if name == "struct.unpack":
+        return "PStructUnpack"
+    if name == "socket.inet_ntop":
+        return "PInetNtop"
+    if name in ("datetime.datetime.fromtimestamp",):
+        return "PFromTimestamp"
+    if name in ("Avp.from_unpacker",):
+        return "PFromUnpacker"
+    if name in ("Unpacker", "hasattr", "getattr", "setattr", "isinstance", "len", "AvpDecodeError", "AvpEncodeError"):
+        return None
+    if isinstance(f, ast.Attribute):
+        if f.attr == "decode":
+            return "PDecodeUtf8"
+        if f.attr in ("hex", "append", "is_done"):
+            return None
+    raise TranslationError(f"{path}:{node.lineno}: unclassified call {ast.dump(f)[:80]} in a value getter")
+
+
+def _getter_rows(cls, path):
+    getter = None
+    for n in cls.body:
+        if isinstance(n, ast.FunctionDef) and n.name == "value" and any(
+                isinstance(d, ast.Name) and d.id == "property" for d in n.decorator_list):
+            getter = n
+    if getter is None:
+        return None
+    rows = []
+
+    def visit(stmts, caught):
+        for st in stmts:
+            if isinstance(st, ast.Try):
+                names = []
+                for h in st.handlers:
+                    if h.type is None:
+                        names.append("EException")
+                    else:
+                        ts = h.type.elts if isinstance(h.type, ast.Tuple) else [h.type]
+                        for t in ts:
+                            dn = _dotted(t)
+                            if dn not in _EXN:
+                                raise TranslationError(f"{path}:{h.lineno}: unknown exception class {dn}")
+                            names.append(_EXN[dn])
+                    # the handler must re-raise as AvpDecodeError
+                    ok = any(isinstance(x, ast.Raise) and isinstance(x.exc, ast.Call)
+                             and _dotted(x.exc.func) == "AvpDecodeError" for x in ast.walk(ast.Module(h.body, [])))
+                    if not ok:
+                        raise TranslationError(f"{path}:{h.lineno}: handler does not raise AvpDecodeError")
+                visit(st.body, caught + names)
+                for h in st.handlers:
+                    visit(h.body, caught)
+                visit(st.orelse, caught)
+                visit(st.finalbody, caught)
+                continue
+            # nested blocks
+            for field in ("body", "orelse"):
+                sub = getattr(st, field, None)
+                if isinstance(sub, list) and sub and isinstance(sub[0], ast.stmt):
+                    pass
+            own = []
+            if isinstance(st, (ast.If, ast.While, ast.For, ast.With)):
+                hdr = st.test if isinstance(st, (ast.If, ast.While)) else (st.iter if isinstance(st, ast.For) else None)
+                if hdr is not None:
+                    own = [c for c in ast.walk(hdr) if isinstance(c, ast.Call)]
+                for c in own:
+                    p = _classify_call(c, path)
+                    if p:
+                        rows.append((p, list(caught)))
+                visit(st.body, caught)
+                visit(getattr(st, "orelse", []), caught)
+                continue
+            for c in ast.walk(st):
+                if isinstance(c, ast.Call):
+                    p = _classify_call(c, path)
+                    if p:
+                        rows.append((p, list(caught)))
+    visit(_strip_doc(getter.body), [])
+    return rows
+
+
+def gen_getters():
+    path, tree = _parse("message/avp/avp.py")
+    out = ["(* GENERATED by tools/translate.py from message/avp/avp.py: for every typed value getter, each",
+           "   primitive it calls together with the exception classes caught around it -- do not edit *)",
+           "From DV Require Import Prelude.Base Model.Wire Model.Exn.",
+           "Definition getter_rows : list (ty * prim * list exn) := ["]
+    body = []
+    seen = set()
+    for n in tree.body:
+        if isinstance(n, ast.ClassDef) and n.name in _TYCLS:
+            rows = _getter_rows(n, path)
+            seen.add(n.name)
+            if rows is None:
+                raise TranslationError(f"{path}: class {n.name} has no value getter")
+            for p, caught in rows:
+                body.append(f"  ({_TYCLS[n.name]}, {p}, [{'; '.join(caught)}])")
+    missing = set(_TYCLS) - seen
+    if missing:
+        raise TranslationError(f"{path}: AVP classes not found: {sorted(missing)}")
+    # Avp.__str__: the value getter must be called inside try/except AvpDecodeError
+    base = _find_class(tree, "Avp", path)
+    st = _find_func(base, "__str__", path)
+    ok = False
+    for t in ast.walk(st):
+        if isinstance(t, ast.Try):
+            uses = any(_is_self_attr(x, "value") for b in t.body for x in ast.walk(b))
+            names = [_dotted(h.type) for h in t.handlers if h.type is not None]
+            if uses and "AvpDecodeError" in names:
+                ok = True
+    body.append(f"  (TUntyped, PValueGetter, [{'EAvpDecodeError' if ok else ''}])")
+    out.append(";\n".join(body))
+    out.append("].")
+    return "\n".join(out) + "\n"
+
+
+UNITS = {"GenIds.v": gen_ids, "GenGetters.v": gen_getters}
 
 
 def regenerate(outdir, units=None):
